@@ -200,9 +200,23 @@ def _replayed(cx, params, replay):
         r['reproduced'] = not holds
         r['replay_detail'] = str(detail)[:800]
     except Exception as e:
-        r['reproduced'] = False
-        r['replay_detail'] = f'replay raised {type(e).__name__}: {e}\n' + traceback.format_exc()[-800:]
+        # the symbolic run recorded an undocumented exception and the real code raises the same exception type on the
+        # solver's input: that is the reproduction
+        same = str(cx.get('label', '')).startswith(f'exception:{type(e).__name__}')
+        r['reproduced'] = bool(same)
+        r['replay_detail'] = (f'the real code raises {type(e).__name__}: {e}' if same else
+                              f'replay raised {type(e).__name__}: {e}\n' + traceback.format_exc()[-800:])
     return r
+
+
+def _worker_init():
+    # die with the parent: a killed check must not leave solver workers behind
+    try:
+        import ctypes
+        import signal
+        ctypes.CDLL('libc.so.6', use_errno=True).prctl(1, signal.SIGKILL)
+    except Exception:
+        pass
 
 
 def _run(modname, job):
@@ -241,7 +255,7 @@ def run_check(prop, tier, seed, only=None, workers=None):
     workers = workers or min(int(os.environ.get('VERIF_WORKERS', '16')), max(1, len(jobs)))
     results = []
     ctxm = mp.get_context('spawn')
-    with ProcessPoolExecutor(max_workers=workers, mp_context=ctxm) as ex:
+    with ProcessPoolExecutor(max_workers=workers, mp_context=ctxm, initializer=_worker_init) as ex:
         futs = {ex.submit(_run, modname, j): j for j in jobs}
         for f in as_completed(futs):
             j = futs[f]
